@@ -1,0 +1,28 @@
+//go:build verif
+
+package runtime
+
+import (
+	"reflect"
+	"unsafe"
+)
+
+// VerifTypeLinks lists what AnalyzeTypeAddr iterates over: for every typelink of the single
+// section its descriptor address and, for pointer types, the element type's address (0 otherwise).
+// ok is false when there is not exactly one section.
+func VerifTypeLinks() (addrs [][2]uintptr, ok bool) {
+	sections, offsets := typelinks()
+	if len(sections) != 1 || len(offsets) != 1 {
+		return nil, false
+	}
+	section := sections[0]
+	for _, off := range offsets[0] {
+		typ := (*Type)(rtypeOff(section, off))
+		e := [2]uintptr{uintptr(unsafe.Pointer(typ)), 0}
+		if typ.Kind() == reflect.Ptr {
+			e[1] = uintptr(unsafe.Pointer(typ.Elem()))
+		}
+		addrs = append(addrs, e)
+	}
+	return addrs, true
+}
